@@ -4,7 +4,8 @@
 From Coq Require Import List ZArith QArith Bool.
 From PV Require Import lib.Sx lib.Str lib.Result model.GenScc model.SccTime model.SccStash model.SccDecoder model.SccLayout.
 From PV Require Import spec.Spec608 spec.SpecScc05.
-From PV Require Import proofs.SccTableFacts proofs.SccTableFixFacts proofs.SccDoubleFacts proofs.SccItalicsFacts proofs.SccPoponStage1.
+From PV Require Import proofs.SccTableFacts proofs.SccTableFixFacts proofs.SccDoubleFacts proofs.SccItalicsFacts proofs.SccPoponStage1 proofs.SccPoponStage2 proofs.SccPoponStage3 proofs.SccPoponStage4 proofs.SccPoponStage6 proofs.SccPoponStage5 proofs.SccPoponStage2c proofs.SccPoponStage7 proofs.SccPoponStage8 proofs.SccPoponStage9.
+From PV Require Import spec.SpecSccTime proofs.SccPoponFacts.
 Import ListNotations.
 Open Scope Z_scope.
 
@@ -167,14 +168,160 @@ Theorem C05_popon_stage1_refines_partial : forall d r off tc tc2 t1 t2, basic_ro
 Proof. exact popon_stage1_ok. Qed.
 Print Assumptions C05_popon_stage1_refines_partial.
 Example C05_stage1_nonvacuous :
-  basic_row (mkRow 15 4 2 false [Ch 72; Ch 105; Ch 33]) = true /\
-  emit_load true [mkRow 15 4 2 false [Ch 72; Ch 105; Ch 33]] =
+  basic_row (mkRow 15 4 2 0 [Ch 72; Ch 105; Ch 33]) = true /\
+  emit_load true [mkRow 15 4 2 0 [Ch 72; Ch 105; Ch 33]] =
     [38062; 38062; 37920; 37920; 38130; 38818; 38130; 38818; 51433; 41344; 37935; 37935].
 Proof. vm_compute. split; reflexivity. Qed.
 
+(* ---- STAGE 2: one row with basic / special / extended characters and explicit backspaces (no mid-row code), any
+        non-italic preamble (7 colours x underline, indent + underline bit), codes single or doubled: the row is read
+        as the characters of its 608 screen row (extended replaces its stand-in, backspace erases one cell) ... ---------- *)
+Theorem C05_popon_stage2_read_partial : forall d r off tc tc2 t1 t2, rich_row r = true ->
+  get_time tc (Z.of_nat (length (emit_load d [r])) - (if d then 2 else 1)) off = Ok t1 ->
+  get_time tc2 0 off = Ok t2 -> Qeq_bool t2 0 = false -> is_flash (mkPre t1 t2 [] None) = false ->
+  read off [(tc, emit_load d [r]); (tc2, emit_clear d)] =
+  ROk [mkPre t1 t2 [CText (rich_text r) (row_pos r)] (Some (row_pos r))].
+Proof. exact popon_stage2_read. Qed.
+Print Assumptions C05_popon_stage2_read_partial.
+Theorem C05_popon_stage2_ok_partial : forall d r t1 t2, rich_row r = true -> (t1 < t2)%Q ->
+  ok_c05 (mkProg d [[r]]) (Ok [mkO t1 t2 [OText (rich_text r)] (Some (layout_of_pos (row_pos r)))]) = true.
+Proof. exact popon_stage2_ok. Qed.
+Print Assumptions C05_popon_stage2_ok_partial.
+(* ... STAGE 2b: the same with an italic preamble (italics / italics underline): one balanced italic span covering
+   exactly the row's characters *)
+Theorem C05_popon_stage2_ital_read_partial : forall d r off tc tc2 t1 t2, rich_row_ital r = true ->
+  get_time tc (Z.of_nat (length (emit_load d [r])) - (if d then 2 else 1)) off = Ok t1 ->
+  get_time tc2 0 off = Ok t2 -> Qeq_bool t2 0 = false -> is_flash (mkPre t1 t2 [] None) = false ->
+  read off [(tc, emit_load d [r]); (tc2, emit_clear d)] =
+  ROk [mkPre t1 t2 [CStyle true (rw_row r, rw_indent r); CText (rich_text r) (row_pos r); CStyle false (rw_row r, rw_indent r)]
+             (Some (row_pos r))].
+Proof. exact popon_stage2_ital_read. Qed.
+Print Assumptions C05_popon_stage2_ital_read_partial.
+Theorem C05_popon_stage2_ital_ok_partial : forall d r t1 t2, rich_row_ital r = true -> (t1 < t2)%Q ->
+  cells_of r = map (fun c => Cell c true) (rich_text r) /\
+  ok_c05 (mkProg d [[r]])
+         (Ok [mkO t1 t2 [OStyle true; OText (rich_text r); OStyle false] (Some (layout_of_pos (row_pos r)))]) = true.
+Proof. exact popon_stage2_ital_ok. Qed.
+Print Assumptions C05_popon_stage2_ital_ok_partial.
+
+(* ---- STAGE 3: one load of SEVERAL rows of basic characters (distinct rows, any transmission order, any addresses):
+        rows on consecutive screen rows become the lines of one caption (break nodes), any other row starts a new
+        caption with the same times, each caption positioned at its first row; the result satisfies the oracle ---------- *)
+Theorem C05_popon_stage3_read_partial : forall d l off tc tc2 t1 t2, basic_load l = true ->
+  get_time tc (Z.of_nat (length (emit_load d l)) - (if d then 2 else 1)) off = Ok t1 ->
+  get_time tc2 0 off = Ok t2 -> Qeq_bool t2 0 = false -> is_flash (mkPre t1 t2 [] None) = false ->
+  read off [(tc, emit_load d l); (tc2, emit_clear d)] = ROk (map (cap_of t1 t2) (expected_load l)).
+Proof. exact popon_stage3_read. Qed.
+Print Assumptions C05_popon_stage3_read_partial.
+Theorem C05_popon_stage3_ok_partial : forall d l t1 t2, basic_load l = true -> (t1 < t2)%Q ->
+  ok_c05 (mkProg d [l]) (Ok (map (ocap_of t1 t2) (expected_load l))) = true.
+Proof. exact popon_stage3_ok. Qed.
+Print Assumptions C05_popon_stage3_ok_partial.
+
+(* ---- STAGE 4: SEVERAL loads (one basic row each) on separate lines with Erase-Displayed-Memory lines anywhere in
+        between: every load is read as exactly one caption, in order, each addressed on its own (ENM resets the
+        position tracker) ------------------------------------------------------------------------------------------------- *)
+Theorem C05_popon_stage4_captions_partial : forall d off segs evs caps,
+  forallb seg_ok segs = true -> res_map (seg_event d off) segs = Ok evs -> positive evs ->
+  read off (map (seg_line d) segs) = ROk caps ->
+  map pc_nodes caps = map (fun r => [CText (row_text r) (row_pos r)]) (loads_of segs) /\
+  map pc_layout caps = map (fun r => Some (row_pos r)) (loads_of segs).
+Proof. exact popon_stage4_captions. Qed.
+Print Assumptions C05_popon_stage4_captions_partial.
+
+(* ---- STAGE 2c = popon_refines_608 for EVERY in-domain ONE-ROW program: all five item kinds incl. the 16 mid-row codes
+        (italics on / off, blank cell rendered as zero or one space), every preamble style, single or doubled codes:
+        read returns exactly one caption, timed by the EOC / EDM instants, positioned at the row's address, and it
+        satisfies the property oracle -------------------------------------------------------------------------------------- *)
+Theorem C05_popon_one_row_refines_partial : forall d r off tc tc2 t1 t2, row_ok r = true ->
+  get_time tc (Z.of_nat (length (emit_load d [r])) - (if d then 2 else 1)) off = Ok t1 ->
+  get_time tc2 0 off = Ok t2 -> (0 < t1)%Q -> (t1 < t2)%Q -> is_flash (mkPre t1 t2 [] None) = false ->
+  exists c, read off [(tc, emit_load d [r]); (tc2, emit_clear d)] = ROk [c] /\
+            pc_start c = t1 /\ pc_end c = t2 /\ pc_layout c = Some (row_pos r) /\
+            ok_c05 (mkProg d [[r]]) (Ok [observe c]) = true.
+Proof. exact popon_stage2c. Qed.
+Print Assumptions C05_popon_one_row_refines_partial.
+
+(* ---- STAGE 5 = one load of SEVERAL rows with basic / special / extended characters, backspaces and ANY preamble style
+        incl. italics (no mid-row code): italics open after the break on an italic row, close before the break on a plain
+        row, are closed and reopened around a reposition; the captions satisfy the oracle --------------------------------- *)
+Theorem C05_popon_stage5_read_partial : forall d l off tc tc2 t1 t2, rich_load l = true ->
+  get_time tc (Z.of_nat (length (emit_load d l)) - (if d then 2 else 1)) off = Ok t1 ->
+  get_time tc2 0 off = Ok t2 -> Qeq_bool t2 0 = false -> is_flash (mkPre t1 t2 [] None) = false ->
+  read off [(tc, emit_load d l); (tc2, emit_clear d)] = ROk (map (cap_of t1 t2) (expected_load l)).
+Proof. exact popon_stage5_read. Qed.
+Print Assumptions C05_popon_stage5_read_partial.
+Theorem C05_popon_stage5b_refines_partial : forall d l off tc tc2 t1 t2, rich_load_any l = true ->
+  get_time tc (Z.of_nat (length (emit_load d l)) - (if d then 2 else 1)) off = Ok t1 ->
+  get_time tc2 0 off = Ok t2 -> Qeq_bool t2 0 = false -> is_flash (mkPre t1 t2 [] None) = false -> (t1 < t2)%Q ->
+  exists caps, read off [(tc, emit_load d l); (tc2, emit_clear d)] = ROk caps /\
+               ok_c05 (mkProg d [l]) (Ok (map observe caps)) = true.
+Proof. exact popon_stage5b. Qed.
+Print Assumptions C05_popon_stage5b_refines_partial.
+
+(* ---- STAGE 6 = popon_refines_608 for WHOLE PROGRAMS of basic characters: any number of loads, each with any number
+        of rows (distinct rows, any order and addresses), each load on its own line, Erase-Displayed-Memory lines
+        anywhere in between, codes single or doubled, any timecodes whose instants are positive and such that every
+        event comes after the latest End-Of-Caption: read returns captions that satisfy the property oracle ok_c05 for the
+        whole program (characters, lines, grouping by consecutive rows, position of each caption, equal times inside a
+        load, order of loads), and the program is inside dom_c05. What remains open for the full theorem: special /
+        extended / backspace / italic preambles in multi-row and multi-load programs (stage 5 + 6 combined), mid-row codes. *)
+Theorem C05_popon_stage6_refines_partial : forall d off segs evs spans,
+  forallb pseg_ok segs = true -> res_map (pseg_event d off) segs = Ok evs -> positive evs -> after_show None evs ->
+  expected_with join_threshold evs = Ok spans ->
+  exists caps, read off (map (pseg_line d) segs) = ROk caps /\
+               ok_c05 (mkProg d (ploads_of segs)) (Ok (map observe caps)) = true /\
+               dom_c05 (mkProg d (ploads_of segs)) = true.
+Proof. exact popon_stage6. Qed.
+Print Assumptions C05_popon_stage6_refines_partial.
+
+(* ---- STAGE 7 = popon_refines_608 for WHOLE PROGRAMS whose rows carry basic / special / extended characters, backspaces
+        and ANY preamble style incl. italics (every item kind except mid-row codes): any number of loads of any number of
+        rows, one load per line, Erase-Displayed-Memory lines anywhere; obtained from stage 5b by a lifting theorem that is
+        generic in the class of loads (proofs/SccPoponStage7.v, Section Lift) ----------------------------------------------- *)
+Theorem C05_popon_stage7_refines_partial : forall d off segs evs spans,
+  forallb (fun s => match s with PLoad _ l => rich_load_any l | PClear _ => true end) segs = true ->
+  res_map (pseg_event d off) segs = Ok evs -> positive evs -> after_show None evs ->
+  expected_with join_threshold evs = Ok spans ->
+  exists caps, read off (map (pseg_line d) segs) = ROk caps /\
+               ok_c05 (mkProg d (ploads_of segs)) (Ok (map observe caps)) = true /\
+               dom_c05 (mkProg d (ploads_of segs)) = true.
+Proof. exact popon_stage7. Qed.
+Print Assumptions C05_popon_stage7_refines_partial.
+
+(* ---- STAGE 8 / 9 = popon_refines_608, THE FULL ITEM DOMAIN. Stage 8: one load of any number of rows with all five
+        item kinds (basic, special, extended-with-stand-in, the 16 mid-row codes, backspace) and every preamble style;
+        stage 9: whole programs of such loads by the generic lifting. Domain lc_ok8 = load_wf (rows in row_ok, distinct
+        row numbers) + no_mid_after_full8: a row that fills its 32 cells is not directly followed by a row in which a
+        mid-row code arrives while the row shows no character yet (the reader appends the code's blank to the previous
+        text; after a full row that is not directly above, this trips the length check: C05_load_wf_not_enough is the
+        witness, found by the proof). Layout of the stream: one load per line, Erase-Displayed-Memory lines anywhere;
+        instants positive and every event after the latest End-Of-Caption. ------------------------------------------------ *)
+Theorem C05_popon_one_load_refines : forall d l off tc tc2 t1 t2, lc_ok8 l = true ->
+  get_time tc (Z.of_nat (length (emit_load d l)) - (if d then 2 else 1)) off = Ok t1 ->
+  get_time tc2 0 off = Ok t2 -> (0 < t1)%Q -> (t1 < t2)%Q -> is_flash (mkPre t1 t2 [] None) = false ->
+  exists caps, read off [(tc, emit_load d l); (tc2, emit_clear d)] = ROk caps /\
+               ok_c05 (mkProg d [l]) (Ok (map observe caps)) = true.
+Proof. exact popon_stage8. Qed.
+Print Assumptions C05_popon_one_load_refines.
+Theorem C05_popon_refines_608 : forall d off segs evs spans,
+  forallb pseg_ok8 segs = true -> res_map (pseg_event d off) segs = Ok evs -> positive evs -> after_show None evs ->
+  expected_with join_threshold evs = Ok spans ->
+  exists caps, read off (map (pseg_line d) segs) = ROk caps /\
+               ok_c05 (mkProg d (ploads_of segs)) (Ok (map observe caps)) = true /\
+               dom_c05 (mkProg d (ploads_of segs)) = true.
+Proof. exact popon_refines_608. Qed.
+Print Assumptions C05_popon_refines_608.
+Theorem C05_load_wf_not_enough :
+  load_wf cex_load = true /\ lc_ok8 cex_load = false /\
+  forallb (fun d => match read 0 [(lit "00:00:01;00", emit_load d cex_load); (lit "00:00:05;00", emit_clear d)] with
+                    | RLen _ => true | _ => false end) [false; true] = true.
+Proof. exact load_wf_not_enough. Qed.
+Print Assumptions C05_load_wf_not_enough.
+
 (* ---- non-vacuity / behaviour after fix #22: the second caption is addressed on its own ---------------------------- *)
 Example C05_example_two_loads :
-  let p := mkProg false [[mkRow 14 0 0 false [Ch 97]]; [mkRow 15 4 0 false [Ch 98]]] in
+  let p := mkProg false [[mkRow 14 0 0 0 [Ch 97]]; [mkRow 15 4 0 0 [Ch 98]]] in
   let ls := [(lit "00:00:01:00", emit_load false (nth 0 (pg_loads p) [])); (lit "00:00:03:00", emit_load false (nth 1 (pg_loads p) []));
              (lit "00:00:05:00", emit_clear false)] in
   match read 0 ls with
